@@ -400,7 +400,45 @@ func init() {
 		}
 		return Float{v: ceil(f.v)}
 	}
+	// --- protobuf: Marshal hands out an opaque handle to a copy of the message, Unmarshal copies it back ---
+	stubs["google.golang.org/protobuf/proto.Marshal"] = func(e *Exec, fn *ssa.Function, a []Value) Value {
+		iv := a[0].(Iface)
+		p, ok := iv.v.(*Value)
+		if !ok || p == nil {
+			return Tuple{Slice(nil), e.mkError("proto: Marshal called with nil")}
+		}
+		list, _ := e.extra["proto_msgs"].([]protoMsg)
+		list = append(list, protoMsg{iv.t, copyVal(*p)})
+		e.extra["proto_msgs"] = list
+		idx := len(list) - 1
+		return Tuple{Slice{e.ts.Const(8, 0xfe), e.ts.Const(8, uint64(idx))}, nilErr()}
+	}
+	stubs["google.golang.org/protobuf/proto.Unmarshal"] = func(e *Exec, fn *ssa.Function, a []Value) Value {
+		b, _ := a[0].(Slice)
+		iv := a[1].(Iface)
+		p, ok := iv.v.(*Value)
+		list, _ := e.extra["proto_msgs"].([]protoMsg)
+		if !ok || p == nil || len(b) != 2 {
+			return e.mkError("proto: cannot parse invalid wire-format data")
+		}
+		t0, ok0 := b[0].(*Term)
+		t1, ok1 := b[1].(*Term)
+		if !ok0 || !ok1 || !t0.IsConst() || !t1.IsConst() || t0.c != 0xfe || int(t1.c) >= len(list) {
+			return e.mkError("proto: cannot parse invalid wire-format data")
+		}
+		m := list[t1.c]
+		if !types.Identical(m.t, iv.t) {
+			return e.mkError("proto: message type mismatch")
+		}
+		storeInto(p, copyVal(m.v))
+		return nilErr()
+	}
 	registerFSStubs()
+}
+
+type protoMsg struct {
+	t types.Type
+	v Value
 }
 
 func ceil(f float64) float64 {
